@@ -14,7 +14,7 @@ use neurons::tensor::Tensor;
 pub fn meta(ctx: &Ctx) -> Meta {
     let d = depth(ctx);
     Meta {
-        rule: format!("block layer lists {{[dense],[dense,dense],[conv],[conv,conv],[deconv],[conv,deconv]}} x bias on/off x loops 1..3 (5, 6, 8 for three of the lists) x coupling {{add,subtract,multiply,mean}} x optimizers {{SGD, SGD with learning rate 1e-6, SGDM, Adam, AdamW, RMSprop}} x block first / between other layers x the block's input / output skips on / off (loops <= 3); actions {{learn(A, batch 1), learn(B, 3 samples, batch 2), learn(A+B, batch 5, 2 epochs), learn on a sample whose target is the current prediction (all gradients exactly zero)}}; ALL action sequences of length <= {}; dense first-layer blocks also with one weight of 3e38 on an input component that is always zero (the coupled value leaves the f32 range while loss and gradients stay finite). Invariant in every state (initial state included): all unrolled copies of each block layer hold bit-identical weights, biases and kernels (NaN = NaN), and the `parameters:` line of Display counts each shared parameter once. States = histories; transitions = learn() calls; non-trivial = states in which the block's weights differ from their initial values", d),
+        rule: format!("block layer lists {{[dense],[dense,dense],[conv],[conv,conv],[deconv],[conv,deconv]}} x bias on/off (also lists that mix bias-free and bias-carrying dense layers) x loops 1..3 (5, 6, 8 for three of the lists) x coupling {{add,subtract,multiply,mean}} x optimizers {{SGD, SGD with learning rate 1e-6, SGDM, Adam, AdamW, RMSprop}} x block first / between other layers x the block's input / output skips on / off (loops <= 3); actions {{learn(A, batch 1), learn(B, 3 samples, batch 2), learn(A+B, batch 5, 2 epochs), learn on a sample whose target is the current prediction (all gradients exactly zero)}}; ALL action sequences of length <= {}; dense first-layer blocks also with one weight of 3e38 on an input component that is always zero (the coupled value leaves the f32 range while loss and gradients stay finite). Invariant in every state (initial state included): all unrolled copies of each block layer hold bit-identical weights, biases and kernels (NaN = NaN), and the `parameters:` line of Display counts each shared parameter once. States = histories; transitions = learn() calls; non-trivial = states in which the block's weights differ from their initial values", d),
         bound: format!("history depth {}; complete over the configuration product", d),
         exhaustive: true,
         assumptions: vec!["overwrite coupling is explicitly unimplemented in the library and outside the statement".into()],
@@ -59,6 +59,13 @@ pub fn configs() -> Vec<Net> {
             lists.push((Dims::Chw(1, 3, 3), vec![], vec![deconv(1)]));
             lists.push((Dims::Chw(1, 3, 3), vec![], vec![conv(2), deconv(1)]));
             lists.push((Dims::Chw(1, 3, 3), vec![conv(1)], vec![conv(1)]));
+        }
+        if bias {
+            // lists that mix bias-free and bias-carrying dense layers, in both orders
+            let db = |n: usize, bias: bool| L::Dense { n, act: Act::Tanh, bias, drop: None };
+            lists.push((Dims::Flat(3), vec![], vec![db(4, false), db(3, true)]));
+            lists.push((Dims::Flat(3), vec![], vec![db(4, true), db(3, false)]));
+            lists.push((Dims::Flat(3), vec![], vec![db(3, false), db(3, true), db(3, false)]));
         }
         for (li, (input, before, list)) in lists.into_iter().enumerate() {
             // beyond the small bound: 5, 6 and 8 repetitions for the first block lists
